@@ -168,7 +168,7 @@ theorem htmlOnly_parentForm (x : Loc) : parentForm c.htmlOnly x = parentForm c x
 theorem htmlOnly_matchIndeterminate : matchIndeterminate c.htmlOnly l = matchIndeterminate c l := by
   unfold matchIndeterminate
   simp only [htmlOnly_parentForm, htmlOnly_tagDescendants, htmlOnly_attrByName, htmlOnly_tagName,
-    htmlOnly_isXml]
+    htmlOnly_isXml, htmlOnly_isHtmlTag]
 theorem htmlOnly_matchPlaceholderShown :
     matchPlaceholderShown c.htmlOnly l = matchPlaceholderShown c l := rfl
 theorem htmlOnly_matchRange (f : Nat) : matchRange c.htmlOnly e f = matchRange c e f := rfl
